@@ -123,7 +123,7 @@ def gen_regdata(rng, bit_runs=False):
         elif v[0] == "ip":
             body += bytes(v[1])
     flush()
-    versions = [[rng.choice([0x31, 0x32, 0x36, 0x3D]), rng.randrange(65536)] for _ in range(rng.randrange(0, 3))]
+    versions = [[rng.choice([0x31, 0x32, 0x36, 0x3D, 0x55, 0x55]), rng.randrange(65536)] for _ in range(rng.randrange(0, 3))]
     head = bytes([rng.randrange(256), rng.randrange(256), 0, 1, len(versions)]) + b"".join(bytes([c, v & 255, v >> 8]) for c, v in versions)
     return schema, values, versions, bytes(head) + bytes(body) + bytes(rng.randrange(256) for _ in range(rng.choice([0, 0, 3]))), bytes(body)
 
@@ -185,7 +185,9 @@ class C05(Prop):
         for k in range(n + n // 2):
             schema, values, versions, payload, body = gen_regdata(rng, bit_runs=k >= n)
             cases.append({"kind": "regdata", "schema": schema, "values": values, "versions": versions, "payload": list(payload),
-                          "body": list(body), "early": rng.choice([None, None, "repr", "data"])})
+                          "body": list(body), "early": rng.choice([None, None, "repr", "data"]),
+                          # the device may have seen announcements before (other versions of the kinds this message lists)
+                          "seen": ({c_: (v_ + rng.choice([0, 1, 7])) % 65536 for c_, v_ in versions} if versions and rng.random() < 0.5 else None)})
         for _ in range(n // 2):
             l = [[rng.randrange(65536), rng.randrange(17)] for _ in range(rng.choice([0, 1, 5, 40]))]
             cases.append({"kind": "schema", "val": l})
@@ -352,6 +354,13 @@ class C05(Prop):
                 if k in ("regdata",):
                     from pyplumio.helpers.data_types import DATA_TYPES
                     dev.data["regdata_schema"] = [(i, DATA_TYPES[ty]()) for i, ty in c["schema"]]
+                    if c.get("seen"):
+                        async def announce(dev=dev, seen=c["seen"]):
+                            await dev.dispatch("frame_versions", {int(a): int(b) for a, b in seen.items()})
+                            for t in list(dev.tasks):
+                                t.cancel()
+                            await asyncio.gather(*dev.tasks, return_exceptions=True)
+                        vloop.run(announce)
                 if k == "thermostat_params":
                     dev.data["thermostats_available"] = c["thermostats"]
                 if k == "thermostat_parameters":
